@@ -175,6 +175,34 @@ theorem rel_cstep {s s' : St} {t : Nat} {th : BThread} {a : Act} {q : PState}
         · exact ⟨th, by simp only [St.setThr]; rw [List.getElem?_set_ne hut]; exact hget, Good_none hrel⟩
       · contradiction
     · contradiction
+  case cJoin u =>
+    split at hs
+    · rename_i thu hgetu
+      split at hs
+      · cases hs
+        by_cases hut : u = t
+        · subst hut
+          rw [hget] at hgetu; cases hgetu
+          exact ⟨{ th with joined := true }, by simp only [St.setThr]; exact List.getElem?_set_self hlen,
+            Good_none (Rel_congr rfl rfl hrel)⟩
+        · exact ⟨th, by simp only [St.setThr]; rw [List.getElem?_set_ne hut]; exact hget, Good_none hrel⟩
+      · contradiction
+    · contradiction
+  case cIsAlive u v =>
+    split at hs
+    · rename_i thu hgetu
+      split at hs
+      · cases hs
+        split
+        · exact ⟨th, hget, Good_none hrel⟩
+        · by_cases hut : u = t
+          · subst hut
+            rw [hget] at hgetu; cases hgetu
+            exact ⟨{ th with joined := true }, by simp only [St.setThr]; exact List.getElem?_set_self hlen,
+              Good_none (Rel_congr rfl rfl hrel)⟩
+          · exact ⟨th, by simp only [St.setThr]; rw [List.getElem?_set_ne hut]; exact hget, Good_none hrel⟩
+      · contradiction
+    · contradiction
   case cRelease =>
     repeat' split at hs
     all_goals first
